@@ -26,6 +26,13 @@ REGISTRY = {
     "C19": ("harness.checks.degen", "run"),
     "C20": ("harness.checks.boundsck", "run"),
     "C10": ("harness.checks.storage", "run"),
+    "C11": ("harness.checks.estim", "run"),
+    "C12": ("harness.checks.classif", "run"),
+    "C18": ("harness.checks.purity", "run"),
+    "C02": ("harness.checks.relations", "run"),
+    "C14": ("harness.checks.relations", "run"),
+    "C15": ("harness.checks.relations", "run"),
+    "C16": ("harness.checks.relations", "run"),
 }
 
 
